@@ -21,6 +21,29 @@ VERIF = os.path.dirname(os.path.abspath(__file__))
 ALL = [f'C{i:02d}' for i in range(1, 19)]
 
 
+def run_checks(mut, todo, copy, args, missed):
+    for pid in todo:
+        env = dict(os.environ, VERIF_REPO=copy, VERIF_SEED=args.seed)
+        res = subprocess.run([os.path.join(VERIF, 'check'), pid,
+                              '--tier', args.tier, '--no-evidence'],
+                             env=env, capture_output=True, text=True)
+        if args.benign:
+            quiet = res.returncode == 0 and 'VIOLATION' not in res.stdout
+            print(f"{mut['name']:45s} {pid}: "
+                  f"{'quiet' if quiet else 'ALARM (exit %d)' % res.returncode}")
+            sys.stdout.flush()
+            if not quiet:
+                missed.append((mut['name'], pid))
+                print(res.stdout[-1500:])
+            continue
+        caught = res.returncode == 1 and 'VIOLATION' in res.stdout
+        print(f"{mut['name']:45s} {pid}: "
+              f"{'caught' if caught else 'MISSED (exit %d)' % res.returncode}")
+        sys.stdout.flush()
+        if not caught:
+            missed.append((mut['name'], pid))
+
+
 def main():
     parser = argparse.ArgumentParser()
     parser.add_argument('--only')
@@ -49,6 +72,24 @@ def main():
                 shutil.rmtree(copy)
             shutil.copytree('/repo', copy, ignore=shutil.ignore_patterns(
                 '.git', '__pycache__', 'docs', 'pics', 'Oracle'))
+            if 'edits' in mut:
+                # refactoring spread over several files: every occurrence of
+                # each pattern is replaced
+                stale = False
+                for edit in mut['edits']:
+                    path = os.path.join(copy, edit['file'])
+                    with open(path) as fil:
+                        text = fil.read()
+                    if edit['old'] not in text:
+                        stale = True
+                    with open(path, 'w') as fil:
+                        fil.write(text.replace(edit['old'], edit['new']))
+                if stale:
+                    print(f"{mut['name']}: a pattern was not found - stale")
+                    missed.append((mut['name'], 'stale'))
+                    continue
+                run_checks(mut, todo, copy, args, missed)
+                continue
             path = os.path.join(copy, mut['file'])
             with open(path) as fil:
                 text = fil.read()
@@ -71,26 +112,7 @@ def main():
                 with open(path2, 'w') as fil:
                     fil.write(text2.replace(mut['extra']['old'],
                                             mut['extra']['new']))
-            for pid in todo:
-                env = dict(os.environ, VERIF_REPO=copy, VERIF_SEED=args.seed)
-                res = subprocess.run([os.path.join(VERIF, 'check'), pid,
-                                      '--tier', args.tier, '--no-evidence'],
-                                     env=env, capture_output=True, text=True)
-                if args.benign:
-                    quiet = res.returncode == 0 and 'VIOLATION' not in res.stdout
-                    print(f"{mut['name']:45s} {pid}: "
-                          f"{'quiet' if quiet else 'ALARM (exit %d)' % res.returncode}")
-                    sys.stdout.flush()
-                    if not quiet:
-                        missed.append((mut['name'], pid))
-                        print(res.stdout[-1500:])
-                    continue
-                caught = res.returncode == 1 and 'VIOLATION' in res.stdout
-                print(f"{mut['name']:45s} {pid}: "
-                      f"{'caught' if caught else 'MISSED (exit %d)' % res.returncode}")
-                sys.stdout.flush()
-                if not caught:
-                    missed.append((mut['name'], pid))
+            run_checks(mut, todo, copy, args, missed)
     finally:
         shutil.rmtree(scratch, ignore_errors=True)
         shutil.rmtree(os.path.join(VERIF, 'replay'), ignore_errors=True)
